@@ -113,6 +113,39 @@ def run (ctx):
   for i in ins:
     st = i.ast
     ctx.ob('R-AGREE', pin, "adjacency entries are keyed by the link and stamped with the current time (`%s`)" % norm(st)[:40], norm(st.targets[0].slice) == 'link' and norm(st.value) == 'time.time()', norm(st), (dmod, st), 'D1')
+  # recurring timers: recoco's Timer stops for good when its callback returns False (selfStoppable defaults to True) - a
+  # periodic job of this component must never return it
+  def may_return_false (f_, depth=0):
+    out = []
+    for r_ in q.returns_of(f_.node):
+      v = r_.value
+      if v is None: continue
+      if isinstance(v, ast.Constant):
+        if v.value is False: out.append((r_, 'False'))
+        continue
+      if isinstance(v, (ast.Compare,)) or (isinstance(v, ast.UnaryOp) and isinstance(v.op, ast.Not)) or (isinstance(v, ast.Call) and call_name(v) in ('bool', 'any', 'all', 'isinstance', 'hasattr')):
+        out.append((r_, norm(v))); continue
+      if isinstance(v, ast.Call) and isinstance(v.func, ast.Attribute) and norm(v.func.value) == 'self' and depth < 3:
+        m_ = disc.find_method(v.func.attr)
+        if m_ is not None:
+          sub = may_return_false(m_, depth + 1)
+          if sub: out.append((r_, "%s -> %s" % (norm(v)[:40], sub[0][1])))
+    return out
+  n_t = 0
+  for f_ in disc.methods.values():
+    for c_ in calls_in(f_.node, nested=True):
+      if call_name(c_) != 'Timer' or len(c_.args) < 2: continue
+      rec = kwarg(c_, 'recurring', 3); stp = kwarg(c_, 'selfStoppable', 8)
+      if rec is None or norm(rec) != 'True' or (stp is not None and norm(stp) == 'False'): continue
+      cb = c_.args[1]
+      m_ = disc.find_method(cb.attr) if isinstance(cb, ast.Attribute) and norm(cb.value) == 'self' else None
+      if m_ is None: continue
+      n_t += 1; ctx.analysed(m_)
+      fr = may_return_false(m_)
+      ctx.ob('R-EFFECT', m_, "the recurring timer's callback never returns False", not fr, "returns nothing / nothing that can be False" if not fr else
+             "`%s` can hand False back to the recurring Timer (%s): the timer treats that as 'cancel' - after the first check that finds nothing to expire, link expiry never runs again and links of a silent "
+             "switch or a cut cable stay in the adjacency for ever" % (norm(fr[0][0])[:50], fr[0][1]), (dmod, fr[0][0]) if fr else m_, 'D1')
+  ctx.floor('recurring timers of the discovery component', n_t, 1)
   g2 = q.cfg_of(dl); lp = dl.params[1]
   rmev = g2.nodes_with_call(lambda c: call_name(c) in ('raiseEventNoErrors', 'raiseEvent') and len(c.args) >= 2 and norm(c.args[0]) == 'LinkEvent' and norm(c.args[1]) == 'False')
   pops = g2.nodes_with_call(lambda c: call_name(c) in ('pop',) and norm(c.func.value) == 'self.adjacency') + \
@@ -383,6 +416,21 @@ def run (ctx):
            "%s: `%s` on every path" % (uncond[0][0].name, uncond[0][1].text(40)) if uncond else
            "no connection-up/down handler forgets _prev[dpid]%s: when a switch reconnects with all ports flooding, port-mods that would disable flooding on its non-tree ports are skipped as 'already sent' - a flooded frame loops"
            % (" (a reset elsewhere only runs for switches still present in the computed tree)" if any('_prev' in norm(x) and call_name(x) in ('pop', 'clear') for x in calls_in(ut.node)) else ""), life[0] if life else ut, 'D3')
+  # ... and that handler is subscribed whenever the component runs, not only in some modes
+  for f_, n in uncond[:1]:
+    regs = []
+    for fn_ in [x for x in ast.walk(smod.tree) if isinstance(x, ast.FunctionDef)]:
+      for c_ in calls_in(fn_, nested=False) if True else []:
+        if call_name(c_) in ('addListenerByName', 'addListener', 'add_listener') and any(isinstance(a_, ast.Name) and a_.id == f_.name for a_ in c_.args): regs.append((fn_, c_))
+    auto = f_.name.startswith('_handle_openflow_') and any(call_name(c_) == 'listen_to_dependencies' for c_ in calls_in(smod.tree, nested=True))
+    if not regs and not auto:
+      ctx.undecided('R-EFFECT', smod.short + ':' + f_.name, "the handler that forgets the remembered bits is subscribed in every mode", "subscription of %s not found" % f_.name, f_, 'D3')
+    for fn_, c_ in regs:
+      gr_ = q.cfg_of(fn_); rn_ = q.enclosing_stmt_node(gr_, c_)
+      always = rn_ is not None and gr_.postdominates([rn_], gr_.entry)
+      ctx.ob('R-EFFECT', smod.short + ':' + f_.name, "the handler that forgets the remembered bits is subscribed in every mode", always, "`%s` on every path of %s" % (norm(c_)[:50], fn_.name) if always else
+             "`%s` runs only under %s: in the other modes nothing forgets _prev[dpid] when a switch reconnects (all its ports flooding again) - the port-mods that would block its non-tree ports are skipped as already sent, and a flooded frame loops"
+             % (norm(c_)[:60], [x for x in q.fact_strs(gr_, rn_)][-2:] if rn_ is not None else '?'), (smod, c_), 'D3')
   g3 = q.cfg_of(ut)
   # decided by evaluation over (port in tree?, edge port?): the NO_FLOOD bit sent must be clear iff the port is a tree
   # port or an edge port; the port-mod is reached exactly when the remembered bit differs
